@@ -382,7 +382,7 @@ def conclude(ctx, lean_ok, mism, ofails, stream, shrink=None):
         if mism:
             m = mism[0]
             broken.append(f"correspondence stream {stream}: {m['what']}")
-            rep = dict(kind="archive", no_longer_checks=broken, **{k: v for k, v in m.items() if k != "what"})
+            rep = dict({"kind": "archive"}, no_longer_checks=broken, **{k: v for k, v in m.items() if k != "what"})
         ctx.violation("proof obligation / correspondence broken and the oracle search found no failing input; " + "; ".join(broken)[:600],
                       rep, no_input=True)
 
